@@ -197,7 +197,7 @@ def run_stress(rep, tier, seed, n, only=None, tag="stress", test=None):
 SCHED = {
     "name": "sched", "pkg": "./internal/rules", "test": "TestVerifC07Sched",
     "eval_module": "Run.Eval_C07Sched", "check_term": "check_sched repo_skel",
-    "n_quick": 900, "n_thorough": 20000, "shard": 100, "timeout": 1800,
+    "n_quick": 1100, "n_thorough": 20000, "shard": 100, "timeout": 1800,
 }
 INSTR_GO = os.path.join(OUTD, "repository_impl_instrumented.go")
 INSTR_JSON = os.path.join(OUTD, "instr.json")
@@ -214,7 +214,11 @@ def gen_instr():
                   timeout=120)
     if rc != 0:
         return False, "instrumenter failed on %s: %s" % (SKEL_SRC, o[-1500:])
-    return True, "instrumented copy " + INSTR_GO
+    try:
+        notes = json.load(open(INSTR_JSON)).get("notes") or []
+    except Exception:
+        notes = []
+    return True, "instrumented copy " + INSTR_GO + ("; instrumenter notes: " + "; ".join(sorted(set(notes))) if notes else "")
 
 
 def sched_overlay():
@@ -254,6 +258,8 @@ def run_sched(rep, tier, seed, cmds, nm, replay=None):
     ok, msg = gen_instr()
     rep.obligation("generate:instrumented-copy", ok)
     cmds.append("go build harness/tools/instr && instr -repo $REPO -file %s -out out/C07/repository_impl_instrumented.go" % SKEL_SRC)
+    if ok and "notes:" in msg:
+        rep.notes.append(msg)
     if not ok:
         rep.notes.append(msg)
         rep.obligation("stream:sched", False)
@@ -291,8 +297,9 @@ def run_sched(rep, tier, seed, cmds, nm, replay=None):
         summary = []
     if summary:
         ex = [s for s in summary if s["kind"] != "sampled"]
-        rep.notes.append("sched: %d schedules; %d tiny plans enumerated (%d completely, sleep-set reduction), %d larger plans sampled" %
-                         (len(obs), len(ex), sum(1 for s in ex if s["complete"]), len(summary) - len(ex)))
+        rep.notes.append("sched: %d schedules; %d tiny plans, %d enumerations (lock-boundary / fine-grained / writer-preference), %d of them "
+                         "complete (sleep-set reduction), %d larger plans sampled" %
+                         (len(obs), len({s["plan"] for s in ex}), len(ex), sum(1 for s in ex if s["complete"]), len(summary) - len(ex)))
     rows, shards, shards_ok, elog = vf.eval_cases(PID + "/sched", "Run.Eval_C07Sched", SCHED["check_term"], [o["coq"] for o in obs],
                                                   shard_size=SCHED["shard"], extra_imports=skel_preamble())
     cmds.append("coqc out/C07/sched/cases_*.v   (regenerated skeleton + `Eval vm_compute in results (check_sched repo_skel) cases`)")
@@ -615,17 +622,20 @@ P = {
             "goroutines, one of them a change, overlapped in time (stamps are taken outside the calls: an upper bound of real "
             "interleaving); distinct by hash of the generated plan; 5 corpus plans first.  The interleavings are chosen by the Go "
             "scheduler (seeded Gosched points / lock-step rounds only), so the observed histories differ between runs; the verdict "
-            "does not.  Stream sched (900 quick / 20000 thorough schedules, every one a case): the build replaces "
+            "does not.  Stream sched (1100 quick / 20000 thorough schedules, every one a case): the build replaces "
             "repository_impl.go by its automatically instrumented copy (harness/tools/instr: sync.Mutex/RWMutex -> scheduler-aware "
             "stand-ins of harness/sched, every read / assignment of r.dr / r.knownRules / r.index and every method call on a tree "
             "behind r.index logged); a controller runs the goroutines of a plan one at a time and switches only where an operation "
             "is invoked and at Lock/RLock/Unlock/RUnlock; a schedule is the list of thread ids chosen there and reproduces the "
-            "execution event for event (bin/check C07 --replay).  8 hand-written tiny plans (2 writers of different sources x 1-2 "
+            "execution event for event (bin/check C07 --replay).  10 hand-written tiny plans (2 writers of different or the same source x 1-2 "
             "changes + 1-2 readers after a sequential set-up: concurrent adds, update vs add, delete vs update, two-route delete "
-            "vs two lookups, colliding adds with a follow-up change, default rule, wildcards) and 8 (thorough: 60) generated tiny "
+            "vs two lookups, colliding adds with a follow-up change, two updates of one source, delete + re-add, default rule, "
+            "wildcards) and up to 8 (thorough: 60) generated tiny "
             "plans are enumerated EXHAUSTIVELY, depth first, with sleep sets (one execution per class of executions that differ "
             "only in the order of independent steps; the reduction is self-tested against plain enumeration in the thorough tier: "
-            "same set of outcomes); plans of the stress generator are sampled (12 schedules each: seeded random walk and PCT with "
+            "same set of outcomes); the two delete plans (thorough: all hand-written plans) are enumerated a second time with "
+            "assignments to guarded fields and method calls on tree objects as additional scheduling points; plans of the "
+            "stress generator are sampled (12 schedules each: seeded random walk and PCT with "
             "depth 3).  Per schedule Coq (Run/Eval_C07Sched.v) checks: the logged events are an execution of the interleaving "
             "semantics for the skeleton regenerated from the same file (replay: each operation a path of its method up to "
             "stuttering, each lock grant enabled in the model, objects loaded / cloned / published are the model's), the results are "
@@ -688,8 +698,8 @@ P = {
                   "under `go test -race` (wildcards, catch-alls, method and regex matchers, backtracking), each checked in Coq to be atomic "
                   "w.r.t. the real code run sequentially (and, literal plans, equal to repo_apply); deep-clone check of Tree.Clone.  "
                   "RUN-TIME TIE (stream sched): an automatically instrumented copy of the current repository_impl.go (mutexes replaced "
-                  "by scheduler-aware stand-ins, guarded accesses logged) is run under EVERY lock-boundary schedule of 16 tiny plans "
-                  "(sleep-set reduced) and sampled schedules of larger ones, 900 / 20000 schedules, each deterministic and replayable "
+                  "by scheduler-aware stand-ins, guarded accesses logged) is run under EVERY lock-boundary schedule of 10 hand-written and some generated tiny plans "
+                  "(sleep-set reduced) and sampled schedules of larger ones, 1100 / 20000 schedules, each deterministic and replayable "
                   "from its list of thread ids; Coq replays each event log through the interleaving semantics of the regenerated "
                   "skeleton - proved: what the replay accepts is an execution of that semantics with exactly the logged invocations "
                   "and responses, hence (wf_skel) crash-free, race-free and linearizable by the theorems above - and checks "
